@@ -240,15 +240,14 @@ structure Holds (r0 : B) (Q : SVal → LVal → Prop) (root : B) (rows : List SV
 
 section
 variable (ext : Ext) (r0 : B) (Q : SVal → LVal → Prop) (okx : SVal → Prop)
-variable (hokraw : ∀ x, okx x → rawOK x = true)
 variable (hstep : ∀ (b b' : B) (x : SVal), WFB b → Safe b → takeRest b = r0 → okx x → push ext b x = .ok b' →
   ∃ lv, dec b' = dec b ++ [lv] ∧ Q x lv)
-include hstep hokraw
+include hstep
 
 theorem holds_push {root r : B} {pending : List SVal} {x : SVal} (hh : Holds r0 Q root pending)
     (hraw : okx x) (h : push ext root x = .ok r) : Holds r0 Q r (pending ++ [x]) := by
   obtain ⟨lv, hd, hq⟩ := hstep root r x hh.wf hh.safe hh.take hraw h
-  obtain ⟨hw, hs, _⟩ := C01.push_appends ext x root r (hokraw x hraw) hh.wf hh.safe h
+  obtain ⟨hw, hs, _⟩ := C01.push_appends ext x root r hh.wf hh.safe h
   exact ⟨hw, hs, by rw [push_takeRest ext x root r h, hh.take], by
     rw [hd]; exact All2.append hh.rows (All2.cons hq All2.nil)⟩
 
@@ -259,10 +258,10 @@ theorem holds_fold : ∀ (rows : List SVal) {root r : B} {pending : List SVal}, 
   | x :: rest, root, r, pending, hh, hraw, h => by
     simp only [List.foldlM] at h
     obtain ⟨b1, h1, h⟩ := (bind_ok _ _ _).1 h
-    have := holds_fold rest (holds_push ext r0 Q okx hokraw hstep hh (hraw x (by simp)) h1) (fun y hy => hraw y (by simp [hy])) h
+    have := holds_fold rest (holds_push ext r0 Q okx hstep hh (hraw x (by simp)) h1) (fun y hy => hraw y (by simp [hy])) h
     simpa using this
 
-omit hstep hokraw in
+omit hstep in
 /-- all records of a history satisfy `okx` -/
 def OpsOK (okx : SVal → Prop) (ops : List Op) : Prop := ∀ op ∈ ops, ∀ x ∈ op.rows, okx x
 
@@ -278,7 +277,7 @@ theorem batches_gen (fields : List Field) (h0 : newRoot fields = .ok r0) (hsafe 
     simp only [run] at h
     obtain ⟨r, h1, h⟩ := (bind_ok _ _ _).1 h
     have hx : okx x := hraw (.push x) (by simp) x (by simp [Op.rows])
-    exact batches_gen fields h0 hsafe ops r _ outs fin (holds_push ext r0 Q okx hokraw hstep hh hx h1)
+    exact batches_gen fields h0 hsafe ops r _ outs fin (holds_push ext r0 Q okx hstep hh hx h1)
       (fun op hop => hraw op (by simp [hop])) h
   | .extend x :: ops, root, pending, outs, fin, hh, hraw, h => by
     simp only [run] at h
@@ -291,7 +290,7 @@ theorem batches_gen (fields : List Field) (h0 : newRoot fields = .ok r0) (hsafe 
     have hx : ∀ y ∈ rows, okx y := by
       intro y hy
       exact hraw (.extend x) (by simp) y (by simp [Op.rows, hrows, hy])
-    have := holds_fold ext r0 Q okx hokraw hstep rows hh hx hf
+    have := holds_fold ext r0 Q okx hstep rows hh hx hf
     simp only [batchesFrom, hrows, Option.getD_some]
     exact batches_gen fields h0 hsafe ops r _ outs fin this (fun op hop => hraw op (by simp [hop])) h'
   | .viaSerializer x :: ops, root, pending, outs, fin, hh, hraw, h => by
@@ -301,7 +300,7 @@ theorem batches_gen (fields : List Field) (h0 : newRoot fields = .ok r0) (hsafe 
     have hx : ∀ y ∈ rows, okx y := by
       intro y hy
       exact hraw (.viaSerializer x) (by simp) y (by simp [Op.rows, hrows, hy])
-    have := holds_fold ext r0 Q okx hokraw hstep rows hh hx hf
+    have := holds_fold ext r0 Q okx hstep rows hh hx hf
     simp only [batchesFrom, hrows, Option.getD_some]
     exact batches_gen fields h0 hsafe ops r _ outs fin this (fun op hop => hraw op (by simp [hop])) h'
   | .build :: ops, root, pending, outs, fin, hh, hraw, h => by
@@ -321,21 +320,23 @@ theorem batches_gen (fields : List Field) (h0 : newRoot fields = .ok r0) (hsafe 
     exact batches_gen fields h0 hsafe ops (takeRest root) [] outs' fin' hh' (fun op hop => hraw op (by simp [hop])) h2
 end
 
-/-- **batches (R1 level).** In any history, build k sees a well-formed root holding exactly as many rows as were
-added since build k-1 (each column at that length, `C01.runRows_rows`), returns `finishFields` of that state, and
-the builder continues from the fresh builder of the schema. -/
+/-- **batches (R1 level).** In any history — records of ANY shape, raw key/value call streams included (a Map builder
+refuses the non-alternating ones since repo fix bcc3416; the former hypothesis `rawOK` is gone) — build k sees a
+well-formed root holding exactly as many rows as were added since build k-1 (each column at that length,
+`C01.runRows_rows`), returns `finishFields` of that state, and the builder continues from the fresh builder of the
+schema. -/
 theorem batches (ext : Ext) (fields : List Field) (r0 : B) (h0 : newRoot fields = .ok r0) (hsafe : Safe r0)
-    (ops : List Op) (hraw : OpsOK (fun x => rawOK x = true) ops) (outs : List (B × List Arr)) (fin : B)
+    (ops : List Op) (outs : List (B × List Arr)) (fin : B)
     (h : run ext r0 ops = .ok (outs, fin)) :
     All2 (fun (out : B × List Arr) rows =>
         WFB out.1 ∧ (dec out.1).length = rows.length ∧ buildArrays ext out.1 = .ok (out.2, r0))
       outs (batchesFrom [] ops) := by
   have hfresh := newRoot_fresh h0
-  have := batches_gen ext r0 (fun _ _ => True) (fun x => rawOK x = true) (fun _ h => h) (by
-    intro b b' x hw hs _ hraw hp
-    obtain ⟨_, _, lv, hd⟩ := C01.push_appends ext x b b' hraw hw hs hp
+  have := batches_gen ext r0 (fun _ _ => True) (fun _ => True) (by
+    intro b b' x hw hs _ _ hp
+    obtain ⟨_, _, lv, hd⟩ := C01.push_appends ext x b b' hw hs hp
     exact ⟨lv, hd, trivial⟩) fields h0 hsafe ops r0 [] outs fin
-    ⟨hfresh.1, hsafe, hfresh.2.2, by rw [hfresh.2.1]; exact All2.nil⟩ hraw h
+    ⟨hfresh.1, hsafe, hfresh.2.2, by rw [hfresh.2.1]; exact All2.nil⟩ (fun _ _ _ _ => trivial) h
   refine All2.imp ?_ this
   intro out rows ⟨hh, hb⟩
   exact ⟨hh.wf, All2.length hh.rows, hb⟩
@@ -354,7 +355,7 @@ theorem batches_interp (ext : Ext) (fields : List Field) (r0 : B) (hc : fields.a
   have hfresh := newRoot_fresh h0
   have hshape := newRoot_shape hc h0
   have := batches_gen ext r0 (fun x lv => interpRow ext fields x = .ok lv) (fun x => noRaw x = true)
-    (fun x h => noRaw_rawOK x h) (by
+    (by
     intro b b' x hw hs ht hraw hp
     have hsh : Shape b (.struct (Fields.ofList fields)) false [] :=
       Shape.of_takeRest (ht.trans hfresh.2.2.symm) hshape
